@@ -110,6 +110,8 @@ pub struct Cfg
     pub pct_payload_sig: u64,
     /// exclusive bodies with the nested-collection pattern (profiles with signals)
     pub pct_nested_gc: u64,
+    /// driver batches with the revoke-then-register-the-same-trigger pair
+    pub pct_rereg: u64,
 }
 
 fn wset(pairs: &[(K, u32)]) -> [u32; NK] { let mut w = [0u32; NK]; for (k, v) in pairs { w[*k as usize] = *v; } w }
@@ -161,6 +163,7 @@ pub fn base_cfg() -> Cfg
         pct_res_t: 10,
         pct_payload_sig: 12,
         pct_nested_gc: 4,
+        pct_rereg: 4,
     }
 }
 
@@ -251,6 +254,7 @@ pub fn profile(name: &str) -> Cfg
             c.world_reactors = 1;
             bump(&mut c, &[(K::WrAdd, 5), (K::WrRemove, 5)]);
             c.despawn_trig_boost = 3;
+            c.pct_rereg = 25;
         }
         "C07" =>
         {
@@ -274,6 +278,7 @@ pub fn profile(name: &str) -> Cfg
             c.d_driver = dset(&[(D::Spawn, 8), (D::Despawn, 8), (D::DespawnRec, 3), (D::Remove, 12), (D::Insert, 8), (D::Gc, 4), (D::Poll, 10), (D::Run, 5), (D::Broadcast, 3), (D::Reparent, 3)]);
             c.pct_direct_step = 60;
             c.despawn_trig_boost = 3;
+            c.pct_rereg = 12;
             c.hierarchy_pct = 40;
             c.steps = (3, 10);
             if name == "C08F" { c.frame_systems = (2, 5); c.pct_update_step = 45; c.pct_direct_step = 30; c.steps = (3, 9); }
@@ -446,6 +451,19 @@ impl<'a> G<'a>
         // now and then one bundle names the same trigger twice (two registrations of one reactor through one token)
         if !v.is_empty() && v.len() < 6 && self.r.chance(7) { let t = *self.r.pick(&v.clone()); v.push(t); }
         v
+    }
+
+    /// "Revoke one reactor's registrations, register another reactor for one of the same triggers" -- in one batch, before any
+    /// poll or trigger can come between (whatever bookkeeping the revocation retires is needed again at once).
+    fn rereg_pair(&mut self) -> Option<(Op, Op)>
+    {
+        if self.persistent_class.is_empty() || self.used.is_empty() { return None; }
+        let mut pairs: Vec<(Inst, Trig)> = self.used.iter().copied().collect();
+        pairs.sort();
+        let (i, t) = *self.r.pick(&pairs);
+        let j = *self.r.pick(&self.persistent_class.clone());
+        if j == i || self.no_event(j) || !self.used.insert((j, t)) { return None; }
+        Some((Op::Revoke(i), Op::Register { inst: j, mode: Mode::Persistent, trigs: vec![t] }))
     }
 
     fn no_event(&self, inst: Inst) -> bool { self.insts.get(inst as usize).map(|d| d.flavour == Flavour::CustomCb).unwrap_or(false) }
@@ -841,6 +859,7 @@ pub fn generate(seed: u64, base: &Cfg) -> Program
         let n = g.r.range(g.c.ops_per_batch.0, g.c.ops_per_batch.1);
         let mut ops = Vec::new();
         for _ in 0..n { if let Some(op) = g.op(None, Flavour::Plain, 0) { ops.push(op); } }
+        if g.r.chance(g.c.pct_rereg) { if let Some((a, b)) = g.rereg_pair() { let at = g.r.below(ops.len() as u64 + 1) as usize; ops.insert(at, b); ops.insert(at, a); } }
         steps.push(Step::Batch(ops));
     }
     if g.r.chance(50) { steps.push(Step::Direct(WOp::Gc)); steps.push(Step::Direct(WOp::Poll)); }
